@@ -808,7 +808,7 @@ def c07_r5(ctx):
 
 # ====================================================================== operation variables: wrappers of the declared type
 @rule("C03.R6", "method parameters follow the wrappers of the variable's declared type: List[...] per list, Optional iff nullable, custom scalar reported through lists",
-      min_instances=6, also=["C07", "C04"])
+      min_instances=7, also=["C07", "C04"])
 def c03_r6(ctx):
     repo = ctx.repo
     fi = repo.func("client_generators.arguments:ArgumentsGenerator._parse_type_node")
@@ -854,9 +854,37 @@ def c03_r6(ctx):
     good = bool(outs) and all(isinstance(strip_pre(x.value), ast.Tuple) and isinstance(strip_pre(x.value).elts[0], ast.Call) and dotted(strip_pre(x.value).elts[0].func) == "generate_annotation_name"
                               and norm(argv(strip_pre(x.value).elts[0], 1, "nullable") or ast.Constant(0)) == "nullable" for x in outs)
     ctx.check(good, key(nf, "flag"), f"named variable types are not wrapped by the incoming flag: {[x.text()[:120] for x in outs][:2]}", nf.loc(), okmsg="named type: Optional iff the incoming flag")
-    src = norm(nf.node)
-    ctx.check("used_custom_scalar = node.name.value" in src or "used_custom_scalar = name" in src, key(nf, "custom scalar reported"),
-              "a configured custom scalar used as variable type is not reported to the caller (its imports / serialize call are then missing)", nf.loc(), okmsg="configured custom scalar reported")
+    def sc_atom(custom):
+        def atom(e):
+            t = norm(strip_pre(e))
+            if t.startswith("isinstance(") and t.endswith(", GraphQLScalarType)"):
+                return True
+            if t.startswith("isinstance(") and (t.endswith(", GraphQLInputObjectType)") or t.endswith(", GraphQLEnumType)")):
+                return False
+            if t.endswith(" not in self.custom_scalars"):
+                return not custom
+            if t.endswith(" in self.custom_scalars"):
+                return custom
+            if t in ("self.schema.type_map.get(node.name.value)", "type_") or t.startswith("self.schema.type_map.get("):
+                return True
+            return None
+        return atom
+    for custom in (True, False):
+        outs = [x for x in Interp(nf, sc_atom(custom)).run() if x.kind == "return"]
+        vals = []
+        for x in outs:
+            v = strip_pre(x.value)
+            second = v.elts[1] if isinstance(v, ast.Tuple) and len(v.elts) == 2 else None
+            seen_ = 0
+            while isinstance(second, ast.Name) and x.env.get(second.id) is not None and seen_ < 6:
+                second = strip_pre(x.env[second.id])
+                seen_ += 1
+            vals.append(norm(second) if second is not None else "?")
+        want = "node.name.value" if custom else "None"
+        ctx.check(bool(vals) and all(v == want for v in vals), key(nf, f"custom scalar reported={custom}"),
+                  f"a {'configured custom' if custom else 'built-in / unconfigured'} scalar used as variable type reports {vals} to the caller, expected {want}"
+                  + (" (its imports / serialize call are then missing)" if custom else ""), nf.loc(),
+                  okmsg=f"{'configured custom scalar -> its name reported' if custom else 'other scalars -> nothing reported'}")
 
 
 # ====================================================================== the definition of a selected field
